@@ -259,7 +259,17 @@ func (s *Server) newPartition(protoPartition *proto.Partition, recovered bool, c
 // replacePartition creates a new stream partition to replace another one. The
 // old partition's events timestamps are kept.
 func (s *Server) replacePartition(oldPartition *partition, recovered bool, config *proto.StreamConfig) (*partition, error) {
-	st, err := s.newPartition(oldPartition.Partition, recovered, config)
+	// Give the new partition its own copy of the protobuf. The two partitions
+	// have different mutexes, so sharing it would let the new partition write
+	// fields (leader, epoch, ISR) while callers still holding the old
+	// partition read them.
+	oldPartition.mu.RLock()
+	protoPartition := *oldPartition.Partition
+	protoPartition.Replicas = append([]string(nil), oldPartition.Replicas...)
+	protoPartition.Isr = append([]string(nil), oldPartition.Isr...)
+	oldPartition.mu.RUnlock()
+
+	st, err := s.newPartition(&protoPartition, recovered, config)
 
 	if err == nil {
 		st.messagesReceivedTimestamps = oldPartition.MessagesReceivedTimestamps()
